@@ -122,8 +122,10 @@ fn run(id: usize, branches: &[&[&str]], k: &dyn for<'a> Fn(Parser<'a>) -> (usize
 
 
 class Prog:
-    def __init__(self, method, branches):
-        self.method, self.branches = method, branches  # branches: list of list of (src, tag)
+    def __init__(self, method, branches, style=0):
+        # branches: list of list of (src, tag); style: 0 = `pat => expr,`  1 = `pat => { expr }` (no comma)
+        # 2 = `pat => { expr },`  3 = mixed
+        self.method, self.branches, self.style = method, branches, style
 
     def tags(self):
         return sorted({t for b in self.branches for (_, t) in b})
@@ -136,10 +138,16 @@ class Prog:
             kfn = "fn k_%d<'a>(mut p: Parser<'a>) -> (usize, Parser<'a>) { konst::parser_method!{p, %s; %s}; (0, p) }\n" % (pid, m, pats)
         else:
             arms = []
-            for bi, b in enumerate(self.branches):
-                arms.append("%s => %d" % (" | ".join(src for (src, _) in b), bi))
-            arms.append("_ => %d" % len(self.branches))
-            kfn = "fn k_%d<'a>(mut p: Parser<'a>) -> (usize, Parser<'a>) { let b: usize = konst::parser_method!{p, %s; %s}; (b, p) }\n" % (pid, m, ", ".join(arms))
+            for bi, b in enumerate(self.branches + [None]):
+                pat = "_" if b is None else " | ".join(src for (src, _) in b)
+                st = self.style if self.style != 3 else (bi + pid) % 3
+                if st == 0:
+                    arms.append("%s => %d," % (pat, bi))
+                elif st == 1:
+                    arms.append("%s => { %d }" % (pat, bi))
+                else:
+                    arms.append("%s => { %d }," % (pat, bi))
+            kfn = "fn k_%d<'a>(mut p: Parser<'a>) -> (usize, Parser<'a>) { let b: usize = konst::parser_method!{p, %s; %s}; (b, p) }\n" % (pid, m, " ".join(arms))
         consts = "const A_%d: &[&[&str]] = &[%s];\n" % (pid, ", ".join("&[%s]" % ", ".join(src for (src, _) in b) for b in self.branches))
         if m in ("strip_prefix", "strip_suffix"):
             rfn = "ref_strip(p, A_%d, %s)" % (pid, "true" if m == "strip_suffix" else "false")
@@ -162,14 +170,16 @@ def gen_programs(rnd, n):
         for pair in ([LITS[0], LITS[2]], [LITS[2], LITS[0]], [LITS[4], LITS[5], LITS[0]], [LITS[6], LITS[0]], [LITS[0], LITS[6]], [LITS[35], LITS[37]], [LITS[37], LITS[35]]):
             progs.append(Prog(m, [pair]))
             if not m.startswith("trim"):
-                progs.append(Prog(m, [[x] for x in pair]))
+                # one literal per branch, in every branch syntax: the first *listed* branch must win
+                for st in (0, 1, 2, 3):
+                    progs.append(Prog(m, [[x] for x in pair], st))
     while len(progs) < n:
         m = rnd.choice(METHODS)
         if m.startswith("trim"):
             b = [[rnd.choice(LITS) for _ in range(rnd.randint(1, 4))]]
         else:
             b = [[rnd.choice(LITS) for _ in range(rnd.randint(1, 3))] for _ in range(rnd.randint(1, 3))]
-        progs.append(Prog(m, b))
+        progs.append(Prog(m, b, rnd.randint(0, 3)))
     return progs
 
 
